@@ -49,6 +49,10 @@ inductive BlkRes
   | panic
   deriving Repr, DecidableEq
 
+/-- `blkEnd := length; if readSize < length-blkBegin { blkEnd = blkBegin + readSize }`. -/
+def blkEndOf (length rs blkBegin : Nat) : Nat :=
+  if rs < length - blkBegin then blkBegin + rs else length
+
 /-- `readBlock(p, off)` with `want = len(p)`. -/
 def readBlock (cp : CP) (rd : Reader) (c : Cache Bytes) (want off : Nat) : Cache Bytes × BlkRes :=
   if cp.readSize = 0 then (c, .panic)
@@ -56,7 +60,7 @@ def readBlock (cp : CP) (rd : Reader) (c : Cache Bytes) (want off : Nat) : Cache
   else
     let blk := off / cp.readSize
     let blkBegin := blk * cp.readSize
-    let blkEnd := if cp.readSize < cp.length - blkBegin then blkBegin + cp.readSize else cp.length
+    let blkEnd := blkEndOf cp.length cp.readSize blkBegin
     match get c (mkKey cp.peerID cp.index blk) (rd blkBegin (blkEnd - blkBegin)) with
     | (c', .error) => (c', .err)
     | (c', .panic) => (c', .panic)
@@ -119,7 +123,8 @@ def dataReader (data : Bytes) : Reader := fun off len =>
   if off + len ≤ data.length then .ok (slice data off len) else .err
 
 /-- Bytes of cache block `blk` of a piece. -/
-def blockSlice (data : Bytes) (rs blk : Nat) : Bytes := slice data (blk * rs) rs
+def blockSlice (data : Bytes) (rs blk : Nat) : Bytes :=
+  slice data (blk * rs) (blkEndOf data.length rs (blk * rs) - blk * rs)
 
 /-- Every torrent's pieces: `(peerID, index) ↦ bytes`. -/
 abbrev World := Bytes → Nat → Bytes
@@ -129,5 +134,46 @@ block of that piece (items under other keys are unconstrained). -/
 def Coherent (w : World) (rs : Nat) (c : Cache Bytes) : Prop :=
   ∀ i ∈ c.heap, ∀ pid idx blk, pid.length = 20 → idx < 4294967296 → blk < 4294967296 →
     i.key = mkKey pid idx blk → i.value = blockSlice (w pid idx) rs blk
+
+/-! ### Histories over one shared cache (what a session does) -/
+
+/-- One event on the session's read cache: a served request reads `n` bytes at `off` of piece
+`idx` of the torrent with peer id `pid`; timers fire; the clock moves; the cache is cleared. -/
+inductive WOp
+  | read (pid : Bytes) (idx off n : Nat)
+  | fire (k : Bytes)
+  | advance (d : Nat)
+  | clear
+  deriving Repr
+
+def wstep (w : World) (rs : Nat) (c : Cache Bytes) : WOp → Cache Bytes × Option RdRes
+  | .read pid idx off n =>
+    let cp : CP := { peerID := pid, index := idx, length := (w pid idx).length, readSize := rs }
+    let (c', r) := readAt cp (dataReader (w pid idx)) c n off
+    (c', some r)
+  | .fire k => (fire c k, none)
+  | .advance d => (advance c d, none)
+  | .clear => (clear c, none)
+
+/-- Results of the reads of a history, in order. -/
+def wrun (w : World) (rs : Nat) : Cache Bytes → List WOp → List RdRes
+  | _, [] => []
+  | c, o :: r =>
+    match wstep w rs c o with
+    | (c', some x) => x :: wrun w rs c' r
+    | (c', none) => wrun w rs c' r
+
+/-- A read that the request validation lets through: a real torrent (20-byte id), 32-bit piece
+index and piece length, block inside the piece. -/
+def WOp.Valid (w : World) : WOp → Prop
+  | .read pid idx off n => pid.length = 20 ∧ idx < 4294967296 ∧ (w pid idx).length < 4294967296 ∧
+      off + n ≤ (w pid idx).length
+  | _ => True
+
+/-- What the reads of a history must return. -/
+def wexpected (w : World) : List WOp → List RdRes
+  | [] => []
+  | .read pid idx off n :: r => .ok (slice (w pid idx) off n) :: wexpected w r
+  | _ :: r => wexpected w r
 
 end Rain.CachedPiece
